@@ -24,6 +24,7 @@ import (
 	"verif/internal/gen"
 	"verif/internal/mon"
 	"verif/internal/prng"
+	"verif/internal/ref"
 )
 
 type job struct {
@@ -387,6 +388,28 @@ func main() {
 			cfgs[fmt.Sprintf("%s|%d%d%d|%d|%d", jobs[i].Kind, jobs[i].LC, jobs[i].LP, jobs[i].PB, jobs[i].Dict, jobs[i].Matcher)] = true
 		}
 		// disturbers: instances with failing sinks / sources, retried and abandoned calls
+		// readers of foreign streams: chunk kinds this library's writer never emits (state resets
+		// without new properties after uncompressed chunks, property changes in the middle), from
+		// the specification-driven generator, several instances with the same properties at once
+		for k := 0; k < 2+round%3; k++ {
+			fp := ref.Props{LC: 3, LP: 0, PB: 2}
+			if k%3 == 2 {
+				fp = ref.Props{LC: 0, LP: 2, PB: 1}
+			}
+			fs := r.U64()
+			l2, content, _ := ref.GenLZMA2(prng.New(fs, 5), ref.LZMA2Plan{DictSize: 4096, NChunks: 8, OpsPer: 300, FixedProp: &fp})
+			if len(content) == 0 {
+				continue
+			}
+			if k%2 == 0 {
+				jobs = append(jobs, job{Kind: "lzma2R", Dict: 4096, Stream: l2, Seed: fs, N: len(l2), Family: "from:generator", LC: fp.LC, LP: fp.LP, PB: fp.PB})
+			} else {
+				xb := ref.BuildXZ(ref.CheckCRC32, []ref.BlockSpec{{LZMA2: l2, Content: content, DictCode: 0}})
+				jobs = append(jobs, job{Kind: "xzR", Dict: 4096, Stream: xb, Seed: fs, N: len(xb), Family: "from:generator", LC: fp.LC, LP: fp.LP, PB: fp.PB})
+			}
+			res.Kinds["foreign_stream_readers"]++
+		}
+		n = len(jobs)
 		judged := n
 		for k := 0; k < 4 && n >= 4; k++ {
 			d := mkWriterJob(r)
